@@ -175,6 +175,22 @@ def finally_masks(ctx, rule):
                key="finally does not mask", node=masked.node if masked is not None else None)
     return n
 
+
+def renamed_init(ctx, rule):
+    # the name the path is extended by is the one the member was given: Renamed.__init__ stores newname (else the wrapped construct's name),
+    # and likewise docs / parsed hook
+    fi, paths = own_method_paths(ctx, "Renamed", "__init__")
+    w = {}
+    for p in paths:
+        for e in p.events:
+            if e.kind == "SELFWRITE" and e["base"] == SELF:
+                w.setdefault(e["attr"], set()).add(e["value"])
+    sc = ("param", "subcon")
+    for attr, par in (("name", "newname"), ("docs", "newdocs"), ("parsed", "newparsed")):
+        want = {("ite", ("param", par), ("param", par), ("attr", sc, attr)), ("ite", N.mk_cmp("is not", ("param", par), N.NONE), ("param", par), ("attr", sc, attr)),
+                ("bool", "or", (("param", par), ("attr", sc, attr)))}
+        ctx.ob(rule, fi, len(paths) >= 1 and bool(w.get(attr)) and w[attr] <= want, "Renamed.__init__ stores %s = %s if given, else the wrapped construct's" % (attr, par), key="init %s" % attr)
+
 def run(ctx):
     M = ctx.model
     # ---- R1
@@ -214,7 +230,8 @@ def run(ctx):
                detail=N.show(subs[0]["path"]) if subs and subs[0]["path"] else None)
         exts.append(subs[0]["path"] if subs else None)
     ctx.ob("C18.R3", "Renamed", len(set(exts)) == 1 and exts[0] is not None, "the suffix has one form in _parse, _build and _sizeof", key="same-suffix", loc=fi.loc)
-    ctx.floor("C18.R3", 4)
+    renamed_init(ctx, "C18.R3")
+    ctx.floor("C18.R3", 7)
 
     # ---- R4 / R5 over every function with a path in scope
     stats = {"sub": 0, "stream": 0, "raise": 0}
